@@ -403,6 +403,7 @@ fn main() {
         "C14b" => drive(&props::text::TextBig(0), &a),
         "C04b" => drive(&props::text::TextBig(1), &a),
         "C17b" => drive(&props::text::TextBig(2), &a),
+        "C02b" => drive(&props::text::TextBig(3), &a),
         "C14a" => drive(&props::misc::IdDistinct, &a),
         other => {
             eprintln!("unknown property {}", other);
